@@ -33,9 +33,11 @@ SETUPS = [
 
 
 def structural_variants(doc_text):
-    """Wrongly shaped JSON derived from a valid report: every key removed, every value replaced by wrong types."""
+    """Wrongly shaped JSON derived from a valid report, as edit operations that a fault job applies to ITS OWN
+    cache file (so that root path, identifiers and checksums stay those of the workspace at hand):
+    ("raw", text) | ("del", path) | ("set", path, value)."""
     doc = json.loads(doc_text)
-    out = ["[]", "{}", "null", "42", '"codelimit"', "true", "[1, 2, 3]", '{"version": 1}', '{"codebase": {}}', '{"codebase": {"files": []}}']
+    out = [("raw", t) for t in ("[]", "{}", "null", "42", '"codelimit"', "true", "[1, 2, 3]", '{"version": 1}', '{"codebase": {}}', '{"codebase": {"files": []}}')]
 
     def paths(node, pre=()):
         if isinstance(node, dict):
@@ -53,20 +55,29 @@ def structural_variants(doc_text):
         return node
 
     for p in list(paths(doc)):
-        d = json.loads(doc_text)
-        parent = get(d, p[:-1])
+        parent = get(doc, p[:-1])
         if isinstance(parent, dict):
-            del parent[p[-1]]
-            out.append(json.dumps(d))
+            out.append(("del", list(p)))
+        old = parent[p[-1]]
         for wrong in (None, 7, "x", [], {}, [1], {"a": 1}, True, -1, 2.5):
-            d = json.loads(doc_text)
-            parent = get(d, p[:-1])
-            old = parent[p[-1]]
             if type(old) is type(wrong) and not isinstance(old, (int, str)):
                 continue
-            parent[p[-1]] = wrong
-            out.append(json.dumps(d))
+            out.append(("set", list(p), wrong))
     return out
+
+
+def apply_variant(doc_text, op):
+    if op[0] == "raw":
+        return op[1]
+    d = json.loads(doc_text)
+    node = d
+    for k in op[1][:-1]:
+        node = node[k]
+    if op[0] == "del":
+        del node[op[1][-1]]
+    else:
+        node[op[1][-1]] = op[2]
+    return json.dumps(d, indent=2)
 
 
 def fault_job(arg):
@@ -93,6 +104,8 @@ def fault_job(arg):
             events.append({"op": ["Damage", "stray"], "pre": w.abstract(), "post": w.abstract(), "exc": ""})
         else:
             pre = w.abstract()
+            if kind == "shape" and not isinstance(detail, str):
+                detail = apply_variant(w.cache_file.read_text(), detail)
             w.damage(kind, detail)
             events.append({"op": ["Damage", kind], "pre": pre, "post": w.abstract(), "exc": ""})
         if edit:
@@ -141,7 +154,7 @@ def run(tier: str) -> int:
         sv = structural_variants(data.decode())
         for v in sv:
             jobs.append((setup, ("shape", v), None))
-            meta.append(("shape", v[:60], si))
+            meta.append(("shape", json.dumps(v)[:80], si))
         n_struct += len(sv)
         for kind in ("empty", "whitespace", "not_json", "dir_without_file", "no_markers", "stray"):
             for edit in (None, ("Write", "p1", "c2"), ("Delete", "p1")):
@@ -219,7 +232,8 @@ def replay_seq(h):
 def replay(path: str) -> int:
     case = json.loads(open(path).read())
     if case["kind"] == "fault":
-        r = guarded(fault_job, ([tuple(x) for x in case["setup"]], tuple(case["fault"]), tuple(case["edit"]) if case["edit"] else None), 300)
+        f0, f1 = case["fault"]
+        r = guarded(fault_job, ([tuple(x) for x in case["setup"]], (f0, tuple(f1) if isinstance(f1, list) else f1), tuple(case["edit"]) if case["edit"] else None), 300)
     else:
         r = guarded(replay_seq, case["history"], 300)
     if r[0] != "ok":
